@@ -1,7 +1,9 @@
 /-
 C14 (host-actor half) — an NBIRTH that is not strictly newer never replaces the applied one or
 rewinds the expected sequence; an invalid payload leaves all state untouched apart from the
-rebirth request it triggers when so configured. (The per-verb validation rules are in
+rebirth request it triggers when so configured; every NBIRTH that IS strictly newer is shown to
+the node's store, exactly once, whatever the host holds for the node (D16: also a rebirth that
+keeps the bdSeq while the node is held birthed). (The per-verb validation rules are in
 `Props/C14.lean`.) Helper lemmas: `SradModel/Proofs/Host.lean`.
 -/
 import SradModel.Proofs.Host
@@ -13,6 +15,50 @@ theorem C14_stale_nbirth_ignored (c : Cfg) (s : St) (ts bd id : Nat) (ans : Ans)
     (h : ts ≤ s.birthTs) :
     step c s (.nbirth ts bd id ans) now wall = (s, []) := by
   simp [step, handleBirth, h]
+
+/-- **every strictly newer NBIRTH is shown to the node's store, exactly once** — in every state
+(stale or birthed, same bdSeq or another, anything buffered, any timer), for every configuration
+and clock: the step's first effect is the store call `nodeBirth id b` for this very message, its
+flag says whether the store accepted (`b = (ans = ok)`), and no other `nodeBirth` effect, for
+this or any other id, follows in the step. With `C14_stale_nbirth_ignored`: an NBIRTH reaches
+the store iff `s.birthTs < ts`. -/
+theorem C14_accepted_nbirth_always_notifies_store (c : Cfg) (s : St) (ts bd id : Nat) (ans : Ans)
+    (now wall : Nat) (hnew : s.birthTs < ts) :
+    ∃ rest, (step c s (.nbirth ts bd id ans) now wall).2
+        = Eff.nodeBirth id (decide (ans = .ok)) :: rest ∧
+      ∀ id' b, Eff.nodeBirth id' b ∉ rest := by
+  simp only [step]
+  rcases handleBirth_cases c s ts bd id ans now wall with ⟨h, _⟩ | ⟨_, hrej, he⟩ | ⟨_, hok, he⟩
+  · omega
+  · rw [he]
+    refine ⟨(issueRebirth c s .invalidPayload now wall).2, by simp [hrej], fun id' b hm => ?_⟩
+    have := issueRebirth_staleish c s .invalidPayload now wall _ hm
+    simp [Eff.staleish] at this
+  · rw [he]
+    refine ⟨(cancelTimer s).2 ++
+        (s.devices.filter fun d => d.2 == Life.birthed).map fun d => Eff.devStale d.1, by simp [hok],
+      fun id' b hm => ?_⟩
+    rcases List.mem_append.mp hm with hm | hm
+    · have := cancelTimer_snd s _ hm; cases this
+    · obtain ⟨x, _, hx⟩ := List.mem_map.mp hm; cases hx
+
+/-- the host's record adopts a strictly newer NBIRTH exactly when the store accepted it: then the
+node is held birthed under the new timestamp and bdSeq; otherwise timestamp and bdSeq of the
+applied birth stay (and the rejection raises `invalidPayload`, `C07_trigger_store_rejects_node_birth`) -/
+theorem C14_nbirth_adopted_iff_store_accepts (c : Cfg) (s : St) (ts bd id : Nat) (ans : Ans)
+    (now wall : Nat) (hnew : s.birthTs < ts) :
+    (ans = .ok → (step c s (.nbirth ts bd id ans) now wall).1.life = .birthed ∧
+        (step c s (.nbirth ts bd id ans) now wall).1.birthTs = ts ∧
+        (step c s (.nbirth ts bd id ans) now wall).1.bdseq = bd) ∧
+    (ans ≠ .ok → (step c s (.nbirth ts bd id ans) now wall).1.birthTs = s.birthTs ∧
+        (step c s (.nbirth ts bd id ans) now wall).1.bdseq = s.bdseq) := by
+  simp only [step]
+  rcases handleBirth_cases c s ts bd id ans now wall with ⟨h, _⟩ | ⟨_, hrej, he⟩ | ⟨_, hok, he⟩
+  · omega
+  · rw [he]
+    exact ⟨fun h => absurd h hrej, fun _ => issueRebirth_fields c s .invalidPayload now wall⟩
+  · rw [he]
+    exact ⟨fun _ => ⟨rfl, rfl, rfl⟩, fun h => absurd hok h⟩
 
 /-- an invalid payload with the switch off changes nothing at all -/
 theorem C14_invalid_payload_frame_off (c : Cfg) (a : App) (n now wall : Nat)
@@ -38,5 +84,23 @@ theorem C14_nodes_do_not_interfere (c : Cfg) (a : App) (n m : Nat) (i : In) (now
     (h : m ≠ n) :
     findNode m (appStep c a (.node n i) now wall).1.nodes = findNode m a.nodes := by
   exact appStep_node_find_ne c a n m i now wall h
+
+/-! ### non-vacuity (D16): a rebirth NBIRTH — same bdSeq, newer timestamp — for a node the host
+holds birthed reaches the store (it may define a different metric set); a rejected one is shown
+to the store too and answered with a rebirth request; a replay of the applied NBIRTH is not -/
+example :
+    let c : Cfg := { exampleCfg (some 100) 0 with invalidPayload := true }
+    let s0 := (step c init (.nbirth 10 3 1 .ok) 10 10).1
+    (step c s0 (.nbirth 20 3 2 .ok) 20 20).2 = [.nodeBirth 2 true] ∧
+    (step c s0 (.nbirth 20 3 2 .unknownMetric) 20 20).2 = [.nodeBirth 2 false, .nodeStale, .ncmd] ∧
+    (step c s0 (.nbirth 10 3 1 .ok) 20 20).2 = [] := by decide
+
+/-- … and the devices held birthed are told they are stale, the armed reorder timer is cancelled -/
+example :
+    let c := exampleCfg (some 100) 0
+    (run c init [⟨.nbirth 10 3 1 .ok, 10, 10⟩, ⟨.rmsg 1 11 (.dbirth 7 2 .ok), 11, 11⟩,
+                 ⟨.rmsg 3 13 (.ndata 4 .ok), 12, 12⟩, ⟨.nbirth 20 3 5 .ok, 20, 20⟩]).2
+      = [.nodeBirth 1 true, .devCreated 7, .devBirth 7 2 true, .timerStart,
+         .nodeBirth 5 true, .timerCancel, .devStale 7] := by decide
 
 end Srad.Host
